@@ -2,14 +2,12 @@
 # usage: tools/confirm_seed.sh <id> <crate>  — confirm a seeded change in its scratch worktree:
 #   demo fails with the change, the crate's existing tests pass with it, demo passes without it
 id="$1"; crate="$2"; wt=/tmp/seed/$id; log=/verif/.cache/seedlogs/$id.log
-export CARGO_NET_OFFLINE=true CARGO_TARGET_DIR=/tmp/seed/target_shared CARGO_PROFILE_DEV_DEBUG=0 CARGO_PROFILE_TEST_DEBUG=0 CARGO_INCREMENTAL=0
+export CARGO_NET_OFFLINE=true CARGO_TARGET_DIR=${SEED_TARGET:-/tmp/seed/$1/target} CARGO_PROFILE_DEV_DEBUG=0 CARGO_PROFILE_TEST_DEBUG=0 CARGO_INCREMENTAL=0
 cd "$wt" || exit 2
 {
 echo "== state"; git status --short | head
 git apply --check -R SEED/patch.diff 2>/dev/null && echo "patch is applied" || { git apply SEED/patch.diff && echo "patch applied now"; }
 demo=$(ls SEED/*.rs | head -1); cp "$demo" crates/$crate/tests/seed_demo.rs
-# the worktrees share one target dir: make this worktree's sources newer than any artifact in it
-find crates -name "*.rs" -exec touch {} +
 echo "== demo WITH change"; timeout 3000 cargo test --offline -p $crate --test seed_demo 2>&1 | grep -E "^test |test result" | tail -8
 echo "== existing tests WITH change"; timeout 5000 cargo nextest run -p $crate --no-fail-fast --offline -E 'not binary(seed_demo)' 2>&1 | grep -E "^\s+(FAIL|SIGABRT|TIMEOUT)|Summary" | sort | uniq | tail -15
 git apply -R SEED/patch.diff
